@@ -7,7 +7,7 @@
 //	       | 's' D string of D bytes | 'b' D bytes of D bytes
 //	       | 'l' link: CIDv1, free single-byte codec, identity multihash with 2 free digest bytes
 //	       | 'L' link: CIDv0 (sha2-256 multihash, 2 free digest bytes, 30 fixed)
-//	       | '[' value* ']' | '{' (D value)* '}'   D = key length in bytes
+//	       | '[' value* ']' | '{' (D value)* '}'   D = key length in bytes, or 'c' for the concrete key "a","b",…
 //
 // Every leaf is a fresh symbolic value (all 2^64 ints, all byte strings of the stated length).
 package gen
@@ -89,8 +89,13 @@ func (p *parser) value() *refval.V {
 	case '{':
 		v := &refval.V{K: refval.Map}
 		for p.s[p.pos] != '}' {
-			kl := p.digit()
-			v.Keys = append(v.Keys, nd.String(p.name("k"), kl))
+			if p.s[p.pos] == 'c' { // concrete key: "a", "b", ... by position
+				p.pos++
+				v.Keys = append(v.Keys, string(rune('a'+len(v.Keys))))
+			} else {
+				kl := p.digit()
+				v.Keys = append(v.Keys, nd.String(p.name("k"), kl))
+			}
 			v.L = append(v.L, p.value())
 		}
 		p.pos++
